@@ -7,7 +7,7 @@ unacknowledged so it is pushed again after the backoff, and the number of concur
 within the adaptive window of 1 to 1000."
 
 The status set and the window constants are read from the source by the extractor
-(`Extracted.pushSuccessCodes`, `Extracted.pushReceiveLits`), so changing them breaks these
+(`Extracted.pushSuccessCodes`, `Extracted.pushWindowConsts`), so changing them breaks these
 theorems.  Acknowledged ⇒ never pushed again is C03 (`C03_final`); not acknowledged ⇒ pushed again
 after the back-off is C04 (`C04_lease_set`, the nack path) — the push streamer feeds its outcome
 into exactly those actions (checked by the correspondence run of this property).
@@ -48,6 +48,8 @@ theorem C19_other_status_nacks (code : Nat) (fast : Bool)
   rw [if_neg this]
 
 theorem window_consts : windowMax = 1000 ∧ windowMin = 1 ∧ nackFactor = 10 := by decide
+/-- …and there is no fourth constant in the window arithmetic -/
+theorem window_consts_only : Extracted.pushWindowConsts.length = 3 := by decide
 
 theorem windowStep_bounds (w : Int) (b : Batch) (h : 1 ≤ w ∧ w ≤ 1000) :
     1 ≤ windowStep w b ∧ windowStep w b ≤ 1000 := by
